@@ -532,6 +532,23 @@ def _run_small(f, fn, case, c, K):
                     got = fn(_mk([SENT] * ox + xa + [SENT]), n=m, offset=ox)
                 c.n += 1; c.nontrivial += 1
                 if not c.scalar('jnrm2', got, R.jnrm2(xa), scale=20.0, key=K + ':value', sub={'x': xa}): return
+                # the hyperbolic norm is defined as sqrt(x0 - ||x1||) * sqrt(x0 + ||x1||): no intermediate square, so vectors of
+                # very large / very small magnitude (exact binary scalings of the same vector) and vectors close to the
+                # boundary of the cone keep their accuracy
+                for e in (500, -500):
+                    xs = [t * 2.0 ** e for t in xa]
+                    g2 = fn(_mk(xs)) if case['default_n'] else fn(_mk([SENT] * ox + xs + [SENT]), n=m, offset=ox)
+                    c.n += 1
+                    if not c.scalar('jnrm2', g2 * 2.0 ** (-e), R.jnrm2(xa), scale=20.0, key=K + ':value:scaled-2^%d' % e, sub={'x': xs}): return
+                if m >= 2:
+                    for sc in (1.0, 3.0):
+                        xb_ = [sc * (1.0 + 2.0 ** -30), sc] + [0.0] * (m - 2)       # ||x1|| = sc exactly
+                        g3 = fn(_mk(xb_)) if case['default_n'] else fn(_mk([SENT] * ox + xb_ + [SENT]), n=m, offset=ox)
+                        w3 = math.sqrt(xb_[0] - sc) * math.sqrt(xb_[0] + sc)
+                        c.n += 1
+                        if not abs(g3 - w3) <= 1e-12 * w3:
+                            c.viol.append({'key': K + ':value:near-boundary', 'msg': 'jnrm2(%r) = %r, sqrt(x0-a)*sqrt(x0+a) = %r (relative error %.2g)'
+                                           % (xb_, g3, w3, abs(g3 - w3) / w3), 'sub': {'x': xb_}}); return
 
 
 def _symv(v, d, mnl):
